@@ -493,6 +493,7 @@ class Opts:
         self.rhs_query = True     # query / variable right-hand sides
         self.msgs = False
         self.call_neg = True      # `not p(args)`
+        self.interp = False       # key interpolation `a.%k` (needs file-level string variables, see gen_file)
         self.nested_calls = True  # a parameterised rule calling another one
         self.default = True       # file-level (default rule) clauses
         self.max_rules = 4
@@ -586,6 +587,17 @@ def gen_walk(rng, v, o, maxsteps=4, allow_filter=True, depth=0, first=True):
                     if not match:
                         return q, None
                     v = v[rng.choice(match)]
+                continue
+            if o.interp and q and q[-1][0] in ("key", "all", "allidx", "idx") and getattr(o, "_strvars", None) and rng.random() < 0.12:
+                # key interpolation: the key comes from a file-level variable bound to a string (or a list of strings)
+                name, keys = rng.choice(o._strvars)
+                q.append(["varkey", name])
+                hit = [k for k in keys if k in v]
+                if not hit:
+                    return q, None
+                v = v[rng.choice(hit)]
+                if rng.random() < 0.5:
+                    return q, v
                 continue
             if r < 0.72:
                 k = rng.choice(list(v))
@@ -797,6 +809,16 @@ def gen_file(rng, doc, o=None):
     rng.shuffle(order)          # rule i may reference rules later in `order` (acyclic)
     rank = {idx: pos for pos, idx in enumerate(order)}
     flets, fvars = gen_lets(rng, doc, o, 0, "f", {})
+    if o.interp:
+        # file-level variables that name keys: a string literal, a list of strings, and (sometimes) a query that selects strings
+        dkeys = sorted({k for p_, v_ in walk(doc) if isinstance(v_, dict) for k in v_ if isinstance(k, str) and VARNAME.match(k)}) or ["a"]
+        k1 = rng.choice(dkeys)
+        flets = list(flets) + [["kv0", ["lit", k1]]]
+        strvars = [("kv0", [k1])]
+        ks = rng.sample(dkeys, min(len(dkeys), rng.randint(1, 2))) + (["zz_nokey"] if rng.random() < 0.3 else [])
+        flets.append(["kv1", ["lit", ks]])
+        strvars.append(("kv1", ks))
+        o._strvars = strvars
     prules = []
     rules = []
     if o.calls and rng.random() < 0.5:
